@@ -62,13 +62,19 @@ type nodeState struct {
 	log        map[uint64]entryInfo
 	cfgs       map[uint64]*ev.Cfg // config entries in the shadow log
 
-	st       ev.St
-	hasSt    bool
-	commit   uint64
-	latest   *ev.Cfg // latest configuration according to the node
-	frontier uint64  // durable frontier of the log
-	needLast uint64  // highest index the node acknowledged as stored (C10)
-	serving  bool
+	st     ev.St
+	hasSt  bool
+	commit uint64
+	latest *ev.Cfg // latest configuration according to the node
+	// C17: the leader this node hears from, and what that leader has sent to
+	// the other nodes since it last contacted this one (while no fault is active)
+	followL, followT uint64
+	followCfg        uint64
+	followTick       int64 // logical time (ticks of a quarter heartbeat timeout) of that contact
+	othersServed     map[uint64]int
+	frontier         uint64 // durable frontier of the log
+	needLast         uint64 // highest index the node acknowledged as stored (C10)
+	serving          bool
 
 	maxTerm       uint64 // highest term ever reported (any incarnation)
 	maxTermSeq    int64
@@ -153,6 +159,7 @@ type Analyzer struct {
 	cfgPayload    map[[3]uint64]*ev.Cfg
 	ticks         int64
 	faultsStopped bool
+	healthy       bool // no fault is active: every link works, every member runs
 	ended         bool
 	Universe      bool // engine B: virtual leaders are entered by the harness
 }
@@ -478,7 +485,12 @@ func (a *Analyzer) Feed(r *ev.Rec) {
 		a.stat("shutdowns")
 	case "tick":
 		a.ticks++
+	case "quiet-begin":
+		a.setHealthy(true)
+	case "quiet-end":
+		a.setHealthy(false)
 	case "fault":
+		a.setHealthy(false)
 		a.stat("faults")
 		a.stat("fault:" + r.Op)
 		a.shape("f:" + r.Op)
@@ -487,6 +499,7 @@ func (a *Analyzer) Feed(r *ev.Rec) {
 		}
 	case "faults-stopped":
 		a.faultsStopped = true
+		a.setHealthy(true)
 	case "converged":
 		a.stat("converged")
 		a.rep.Stats["convergence-ticks"] = r.Cnt
@@ -640,6 +653,7 @@ func (a *Analyzer) onOpen(n *nodeState, r *ev.Rec) {
 	a.stat("incarnations")
 	prevInc := n.inc
 	n.inc = r.Inc
+	n.followL, n.followT, n.othersServed = 0, 0, nil
 	oldLog, oldPrev, oldLast := n.log, n.prev, n.last
 	n.log = map[uint64]entryInfo{}
 	n.cfgs = map[uint64]*ev.Cfg{}
@@ -766,6 +780,7 @@ func (a *Analyzer) onCrash(n *nodeState, r *ev.Rec) {
 	a.stat("crashes")
 	a.stat("crash@" + r.Point)
 	n.crashed = true
+	n.followL, n.followT, n.othersServed = 0, 0, nil
 	n.crashPoint = r.Point
 	n.crashLog = n.log
 	n.crashPrev, n.crashLast, n.crashNeed = n.prev, n.last, n.needLast
@@ -1100,4 +1115,60 @@ func (a *Analyzer) Finish() *Report {
 	}
 	a.rep.Stats["committed-entries"] = cm
 	return a.rep
+}
+
+// setHealthy starts or ends a period without active faults.
+func (a *Analyzer) setHealthy(on bool) {
+	a.healthy = on
+	for _, n := range a.nodes {
+		n.othersServed = nil
+		if on && n.followL != 0 {
+			n.othersServed = map[uint64]int{} // counting starts now
+			n.followTick = a.ticks
+		}
+	}
+}
+
+// onLeaderContact: follower f handled a request of leader l (term t).
+func (a *Analyzer) onLeaderContact(f *nodeState, l, t uint64, q int64) {
+	if a.healthy {
+		for _, x := range a.nodes {
+			if x != f && x.key.cid == f.key.cid && x.followL == l && x.followT == t && x.othersServed != nil {
+				x.othersServed[f.key.nid]++
+				a.rep.Stats["heartbeat-fairness-checks"]++
+				// a voter must hear from its leader within one heartbeat
+				// timeout (4 ticks); 5 timeouts without, while another node
+				// was served at least 8 times, is no accident of scheduling
+				if x.othersServed[f.key.nid] >= 8 && a.ticks-x.followTick >= 20 {
+					a.starved(x, f.key.nid, q)
+				}
+			}
+		}
+	}
+	f.followL, f.followT, f.othersServed = l, t, nil
+	f.followTick = a.ticks
+	if a.healthy {
+		f.othersServed = map[uint64]int{}
+	}
+	f.followCfg = 0
+	if ln := a.nodes[nodeKey{f.key.cid, l}]; ln != nil && ln.latest != nil {
+		f.followCfg = ln.latest.Index
+	}
+}
+
+// starved (C17): in a period without faults a leader that keeps sending
+// requests to one follower also sends some to every other voter of its
+// configuration - otherwise that voter times out and disturbs a healthy
+// cluster. The pattern (8 requests to one node, none to x, same leader still
+// in office, configuration unchanged) is not something load can produce.
+func (a *Analyzer) starved(x *nodeState, by uint64, q int64) {
+	ln := a.nodes[nodeKey{x.key.cid, x.followL}]
+	if ln == nil || !ln.hasSt || ln.st.State != "L" || ln.st.Term != x.followT || ln.crashed || x.crashed {
+		return
+	}
+	if ln.latest == nil || ln.latest.Index != x.followCfg || !ln.latest.IsVoter(x.key.nid) {
+		return
+	}
+	a.find("C17", "voter-starved-of-heartbeats", "", q, "leader %d (term %d, no fault active) has sent %d requests to node %d in the %d ticks (quarters of a heartbeat timeout) since it last contacted %s, a voter of its configuration %s, and none to that node", x.followL, x.followT, x.othersServed[by], by, a.ticks-x.followTick, x.key, cfgString(ln.latest))
+	x.othersServed = map[uint64]int{}
 }
